@@ -533,4 +533,16 @@ def set_method(I, s, name, args, kwargs, node):
         return None
     if name == "copy":
         return set(s)
+    if name == "update":
+        I.note_write(s)
+        for a in args:
+            for x in I.iter_concrete(a, node):
+                if not concrete(x) and not isinstance(x, (SObj, SOpaque, z3.ExprRef)):
+                    raise SymError("set.update with a symbolic value")
+                s.add(x)
+        return None
+    if name == "clear":
+        I.note_write(s)
+        s.clear()
+        return None
     raise SymError("set method %s" % name)
